@@ -509,3 +509,17 @@ Proof.
   - specialize (Lf (ILock h0) (or_introl eq_refl)). discriminate.
   - cbn [held] in Hheld. rewrite (pending_block_holds_nothing h0 restb (Hn b _ Hcb) Bt (r_id h)) in Hheld. lia.
 Qed.
+
+(* ... and when, moreover, only handler bodies panic (not the threads' own code, hooks, filters or the panic handler),
+   nobody ever dies of an unrecovered panic: such programs never deadlock *)
+Theorem leaf_programs_never_deadlock P cfg threads sched :
+  Pwf P -> Pleaf P -> Ppanic P cfg ->
+  (forall l, In l threads -> okacts P l = true) -> (forall l, In l threads -> nopanicb l = true) ->
+  let s := fst (run P cfg (init_state threads) sched) in
+  (exists a i rest, assoc_get (code s) a = Some (i :: rest)) ->
+  exists b s' ls, mstep P cfg s b = Some (s', ls).
+Proof.
+  intros HW HP HPn Ht Hn s Hex.
+  apply (progress_when_sequential_handlers_do_not_publish P cfg threads sched HW HP Ht); [|exact Hex].
+  intros a rest Ha. apply (handler_panics_never_crash P cfg threads sched HPn Hn a _ Ha). left. reflexivity.
+Qed.
